@@ -2024,11 +2024,19 @@ class BaseInterpreter(Generic[TContext, TEvent]):
                 child.type == "history" for child in state.states.values()
             ):
                 continue
-            remembered = [
-                node
-                for node in self._active_state_nodes
-                if node is not state and self._is_descendant(node, state)
-            ]
+            # 📑 Remember in DOCUMENT order. `_active_state_nodes` is a set
+            #    of objects hashed by address, so iterating it yields a
+            #    different order from run to run — and that order decided in
+            #    which order restored states were re-entered (and so the
+            #    order of their entry actions).
+            remembered = sorted(
+                (
+                    node
+                    for node in self._active_state_nodes
+                    if node is not state and self._is_descendant(node, state)
+                ),
+                key=self._document_order,
+            )
             if remembered:
                 self._history[state.id] = remembered
                 logger.debug(
@@ -2036,6 +2044,24 @@ class BaseInterpreter(Generic[TContext, TEvent]):
                     state.id,
                     [n.id for n in remembered],
                 )
+
+    @staticmethod
+    def _document_order(node: StateNode) -> List[int]:
+        """Sort key placing states in the order the config declares them.
+
+        Args:
+            node (StateNode): The state to rank.
+
+        Returns:
+            List[int]: Child indices along the path from the root.
+        """
+        path: List[int] = []
+        current: Optional[StateNode] = node
+        while current is not None and current.parent is not None:
+            path.append(list(current.parent.states).index(current.key))
+            current = current.parent
+        path.reverse()
+        return path
 
     def _resolve_history_target(
         self, history_node: StateNode
